@@ -1,10 +1,7 @@
-import Martian.Util
-/-! STUB — property C05 is not built yet. -/
+import Martian.Drv.Proxy
+/-! C05 uses the shared exchange-machine driver. -/
 namespace Martian.Drv.C05
-open Martian
-
-abbrev St := Unit
-def init : St := ()
-def step (s : St) (_toks : List String) : St × String := (s, "bad-op")
-
+abbrev St := Martian.Drv.Proxy.St
+def init : St := Martian.Drv.Proxy.init
+def step : St → List String → St × String := Martian.Drv.Proxy.step
 end Martian.Drv.C05
